@@ -120,6 +120,10 @@ def all_namings(kinds):
     # the documentation allows any string after the first dot, dots included: one such naming per sequence
     if kinds:
         out.append([f"{k}.v{i}.2" for i, k in enumerate(kinds)])
+        # ... and suffixes that spell the names of OTHER step kinds (substring tests on step names must not bite)
+        out.append([f"{k}.multiscale_{i}" for i, k in enumerate(kinds)])
+        out.append([f"{k}.validation_{i}" if k != "validation" else f"{k}.matching_cost_{i}"
+                    for i, k in enumerate(kinds)])
     return out
 
 
